@@ -32,7 +32,7 @@ package service
 //@    && (forall h uint32 :: c.last[h] >= c.r2 && c.last[h] >= 0 ==> has(c.active, h) || has(c.archive, h)) \
 //@    && (forall h uint32 :: has(c.active, h) || has(c.archive, h) ==> c.last[h] >= 0) \
 //@    && len(c.active) <= c.now - c.r1 \
-//@    && ((c.r1 == 0 && c.r2 == 0) || (c.r1 < c.now && c.r1 - c.r2 >= c.capHist[c.r1]))
+//@    && ((c.r1 == 0 && c.r2 == 0) || (c.r1 < c.now && c.r1 - c.r2 >= c.capHist[c.r1] - 1))
 
 //@ lockinv[C07] ReplayCache.mutex(c) := rcInv(c)
 
